@@ -132,6 +132,9 @@ def curated():
          tags=['groups', 'trigger', 'delay']))
     # --- async_requests connections next to ordinary data flow (the destination makes no requests here; scheduling only)
     a(mk('async2', ['A', 'B'], {'A': 'tb', 'B': 'tb'}, [('A', 'B', {'async': True})], tags=['data', 'async']))
+    # asynchronous requests on a pair whose only data connection is time-shifted / weak: the async connection still means zero delay
+    a(mk('async2s', ['A', 'B'], {'A': 'tb', 'B': 'tb'}, [('A', 'B', {'k': 1, 'async': True})], tags=['data', 'async']))
+    a(mk('async2w', [['A', 'B']], {'A': 'tb', 'B': 'hy'}, [('A', 'B', {'i': 't', 'weak': True, 'async': True})], tags=['data', 'async']))
     a(mk('async2hy', ['A', 'B'], {'A': 'hy', 'B': 'hy'}, [('A', 'B', {'async': True})], tags=['trigger', 'async']))
     a(mk('async3', ['A', 'B', 'C'], {'A': 'tb', 'B': 'tb', 'C': 'hy'}, [('A', 'B', {'async': True}), ('B', 'C', {'i': 't'})], tags=['data', 'async']))
     # --- initial events at a later time, self-connection
